@@ -148,3 +148,17 @@ Theorem C14_K_isolation_sound : forall prev o ob t,
   (forall n, In n (o_feed ob) -> feed_tgt n = t).
 Proof. exact kp_isolation_sound. Qed.
 Print Assumptions C14_K_isolation_sound.
+
+(** isolation for the call addressed to every target: after UpdateMetadata
+    every target stores, outside "meta", exactly what it stored before (and
+    exists iff it existed) *)
+Theorem C14_update_metadata_frame : forall c now name,
+  cinv c -> name <> ""%string ->
+  forall p0 rest, p0 <> md_root ->
+    match assoc name (c_targets (fst (fst (cache_update_metadata c now)))), assoc name (c_targets c) with
+    | Some t', Some t => lookup (t_tree t') (p0 :: rest) = lookup (t_tree t) (p0 :: rest)
+    | None, None => True
+    | _, _ => False
+    end.
+Proof. exact update_metadata_frame. Qed.
+Print Assumptions C14_update_metadata_frame.
